@@ -168,17 +168,38 @@ func (w *busWorld) mem(id int) *busRec {
 }
 
 func (w *busWorld) release() {
-	for _, u := range w.used {
-		e := u[1]
-		if e > 0xffffff {
-			e = 0xffffff
+	// the table is cleared through the code under test, so do not trust it: the bus goes back to the pool
+	// only if clearing neither failed nor left anything behind at the edges of the ranges used
+	clean := func() (ok bool) {
+		defer func() {
+			if recover() != nil {
+				ok = false
+			}
+		}()
+		for _, u := range w.used {
+			e := u[1]
+			if e > 0xffffff {
+				e = 0xffffff
+			}
+			if u[0] <= e {
+				if w.b.Attach(nil, "", u[0], e) != nil {
+					return false
+				}
+			}
 		}
-		if u[0] <= e {
-			w.b.Attach(nil, "", u[0], e)
+		for _, u := range w.used {
+			for _, a := range []uint32{u[0] - 16, u[0] - 1, u[0], u[0] + 16, u[1] - 16, u[1], u[1] + 1, u[1] + 16, u[1] + 32} {
+				if a < 1<<24 && w.read(a) != -1 {
+					return false
+				}
+			}
 		}
+		return true
+	}()
+	if clean {
+		w.b.EA, w.b.Write = 0, false
+		busPool = w.b
 	}
-	w.b.EA, w.b.Write = 0, false
-	busPool = w.b
 	w.b = nil
 }
 
@@ -681,7 +702,7 @@ func busCasesCmd(args []string) int {
 	for _, c := range busSystematic(thorough) {
 		enc.Encode(c)
 	}
-	n := 900
+	n := 2000
 	if thorough {
 		n = 12000
 	}
@@ -1062,7 +1083,23 @@ func busReplayCmd(args []string) int {
 	return 0
 }
 
+// buscase <json>: run one case (inputs as in corpus/C13/*.json) and print it with its observations
+func busCaseCmd(args []string) int {
+	if len(args) < 1 {
+		return 2
+	}
+	var c busCase
+	if err := json.Unmarshal([]byte(args[0]), &c); err != nil {
+		fmt.Fprintln(os.Stderr, err)
+		return 2
+	}
+	busRun(&c)
+	json.NewEncoder(os.Stdout).Encode(c)
+	return 0
+}
+
 func init() {
+	commands["buscase"] = busCaseCmd
 	commands["buscases"] = busCasesCmd
 	commands["buscheck"] = busCheckCmd
 	commands["busreplay"] = busReplayCmd
